@@ -119,13 +119,19 @@ def gen_cases(rng, tier):
             data = _tensor(rng, shp)
             ranks = [rng.randint(1, s) for s in shp]
             a = {"shape": list(shp), "data": data, "ranks": ranks, "sequential": rng.random() < 0.5, "dimorder": list(rng.choice(perms))}
-            for op in ("hosvd_ranks_struct", "hosvd_ranks_cols", "hosvd_ranks_known"):
-                cases.append(Case(op, dict(a), nt))
+            cases.append(Case("hosvd_ranks", dict(a), nt))
+            # mixed request: some ranks given, some automatic (0), with a tolerance
+            if d >= 2:
+                a3 = dict(a, data=_tensor(rng, shp))
+                a3["ranks"] = [(r if rng.random() < 0.5 else 0) for r in ranks]
+                tol = rng.choice(TOLS[:3])      # small tolerance: the shrunk tensor keeps more energy than the per-mode budget
+                a3["tol"] = [tol.numerator, tol.denominator]
+                cases.append(Case("hosvd_mixed", a3, nt))
             if rng.random() < (0.6 if big else 0.3):
                 a2 = dict(a)
-                a2["ranks"] = list(shp)           # full ranks: the A-32 slice is clipped, contract must hold
+                a2["ranks"] = list(shp)           # full ranks
                 a2["data"] = _tensor(rng, shp)
-                cases.append(Case("hosvd_ranks_cols", a2, nt))
+                cases.append(Case("hosvd_ranks", a2, nt))
             # tucker_als
             if d >= 2:
                 data = _tensor(rng, shp)
@@ -186,10 +192,13 @@ def run_impl(c):
             o = _obs_tt(np, T)
             o["certs"], o["margin"] = _certs(np, a, T)
             return o
-        if c.op.startswith("hosvd_ranks"):
-            T = ttb.hosvd(X, 0.5, verbosity=0, dimorder=list(a["dimorder"]), sequential=a["sequential"],
-                          ranks=[int(r) for r in a["ranks"]])
-            return _obs_tt(np, T)
+        if c.op in ("hosvd_ranks", "hosvd_mixed"):
+            tol = a["tol"][0] / a["tol"][1] if "tol" in a else 0.5
+            ranks = np.array([int(r) for r in a["ranks"]], dtype=int)      # the caller's own array (A-25: must stay as given)
+            T = ttb.hosvd(X, tol, verbosity=0, dimorder=list(a["dimorder"]), sequential=a["sequential"], ranks=ranks)
+            o = _obs_tt(np, T)
+            o["ranks_after"] = [int(r) for r in ranks]
+            return o
         if c.op == "tucker_als":
             fits = []
             res = None
@@ -234,12 +243,12 @@ def coq_check(c, o):
             certs = "[" + "; ".join(f"({gqmat(ct['W'])}, {gqlist(ct['mu'])})" for ct in o["certs"]) + "]"
             e += f" && auto_ranks_ok eps8 {gq(tol * tol)} {gbool(a['sequential'])} {X} {gnlist(a['dimorder'])} {T} {certs}"
         return e
-    if c.op == "hosvd_ranks_struct":
-        return f"tucker_struct eps9 {X} {T}"
-    if c.op == "hosvd_ranks_cols":
-        return f"ranks_are {T} {gnlist(a['ranks'])}"
-    if c.op == "hosvd_ranks_known":     # either the contract or the known A-32 behaviour, nothing else
-        return f"ranks_are {T} {gnlist(a['ranks'])} || ranks_plus_one {T} {gnlist(a['shape'])} {gnlist(a['ranks'])}"
+    if c.op == "hosvd_ranks":
+        return (f"tucker_struct eps9 {X} {T} && ranks_are {T} {gnlist(a['ranks'])} && "
+                f"nvec_eqb {gnlist(o['ranks_after'])} {gnlist(a['ranks'])}")
+    if c.op == "hosvd_mixed":           # given entries exactly, automatic entries within the mode size; caller's array untouched
+        return (f"tucker_struct eps9 {X} {T} && ranks_given {T} {gnlist(a['ranks'])} && "
+                f"nvec_eqb {gnlist(o['ranks_after'])} {gnlist(a['ranks'])}")
     if c.op == "tucker_als":
         fits = gqlist(o["fits"])
         return (f"tucker_struct eps9 {X} {T} && ranks_are {T} {gnlist(a['ranks'])} && fit_ok eps9 {gq(o['fit'])} {X} {T} "
@@ -303,10 +312,12 @@ def oracle(c, o):
         tol = a["tol"][0] / a["tol"][1]
         if errsq > tol * tol * normsq + 1e-8 * max(1.0, normsq):
             return f"relative error {math.sqrt(errsq / normsq)} exceeds tol {tol}"
-    if c.op in ("hosvd_ranks_cols", "hosvd_ranks_known", "tucker_als"):
+    if c.op in ("hosvd_ranks", "hosvd_mixed", "tucker_als"):
         got = [fs[1] for fs in o["fshapes"]]
-        if got != list(a["ranks"]):
+        if any(r != 0 and g != r for g, r in zip(got, a["ranks"])):
             return f"requested ranks {a['ranks']} but factors have {got} columns"
+    if c.op in ("hosvd_ranks", "hosvd_mixed") and o["ranks_after"] != list(a["ranks"]):
+        return f"hosvd changed the caller's ranks array from {a['ranks']} to {o['ranks_after']}"
     if c.op == "tucker_als":
         fit = float(o["fit"])
         if abs((1 - fit) ** 2 * normsq - errsq) > 1e-8 * max(1.0, normsq):
@@ -317,22 +328,3 @@ def oracle(c, o):
     return None
 
 
-# ---------------------------------------------------------------- known findings
-def _a32(c):
-    a = c.args
-    return c.op == "hosvd_ranks_cols" and any(r < s for r, s in zip(a["ranks"], a["shape"]))
-
-
-TRIGGERS = {"user_rank_below_mode_size": _a32}
-
-
-def _wit_a32():
-    import numpy as np
-    import pyttb as ttb
-    X = ttb.tensor(np.arange(1.0, 13.0).reshape((3, 4), order="F"))
-    T = ttb.hosvd(X, 0.5, verbosity=0, ranks=[1, 2])
-    got = [int(U.shape[1]) for U in T.factor_matrices]
-    return None if got == [1, 2] else f"hosvd(ranks=[1,2]) on a 3x4 tensor returns factors with {got} columns"
-
-
-WITNESSES = {"A-32": _wit_a32}
